@@ -4,7 +4,8 @@ statement demands, with a black-box probe of the borrow slots; and the strong+we
 one allocation scenario (D11).  No model: the oracle is the statement."""
 import os, subprocess
 
-TAKES = {'C02': ('slots:', 'count:'), 'C15': ('identity:', 'count:', 'slots:'), 'C12': ('cross-kind:',)}
+TAKES = {'C02': ('slots:', 'count:'), 'C15': ('identity:', 'count:', 'slots:'), 'C12': ('cross-kind:',), 'C09': ()}
+# C09 takes no line of a finished run: for it only a call that never returns counts (the program hangs)
 
 def run(pid, tier, seed, ROOT, REPO, WORK):
     out = {'coverage': {}, 'problems': [], 'violations': [], 'samples': []}
@@ -17,7 +18,7 @@ def run(pid, tier, seed, ROOT, REPO, WORK):
         path = os.path.join(ROOT, 'replays'); os.makedirs(path, exist_ok=True)
         path = os.path.join(path, f'{pid}-kindscont.txt')
         open(path, 'w').write('\n'.join(lines) + '\n\nthe program did not finish within 120 s (it takes well under a second): a call never returned\nreplay: harness/target/debug/harness kindscont\n')
-        out['violations'].append(('count: the container-level program over the pointer kinds hangs: a call on a container of some kind never returns (single-threaded; see the replay for the lines printed before)', path))
+        out['violations'].append(('hang: the container-level program over the pointer kinds does not finish: a call on a container of some kind never returns, running alone (single-threaded; see the replay for the lines printed before)', path))
         return out
     lines = [l.rstrip('\n') for l in open(f)]
     if p.returncode != 0 or not any(l.startswith('kindscont: ') for l in lines):
